@@ -693,8 +693,18 @@ def interface(ctx, root):
     if sorted(txt) != sorted(["ifdata.ifdata_valid = true", "ifdata.ifdata_items = Some(self.store())"]):
         ctx.bad(root, "interface::store", "store_to_ifdata should set ifdata_valid and ifdata_items = Some(self.store()), found %s" % txt, where="a2lmacros/src/a2mlspec.rs")
     genpanic(ctx, root, lf)
+    def tests_valid(x):
+        if x.get("t") != "If":
+            return False
+        c = render(x["cond"]).replace(" ", "")
+        if c == "ifdata.ifdata_valid":
+            return True
+        # guard clause: `if !ifdata.ifdata_valid { return None; }`
+        if c in ("!ifdata.ifdata_valid", "!(ifdata.ifdata_valid)") and any(y.get("t") == "Return" for y in astq.walk(x.get("then") or x.get("body") or {})):
+            return True
+        return False
     for x in astq.walk(lf["body"]):
-        if x.get("t") == "If" and render(x["cond"]) == "ifdata.ifdata_valid":
+        if tests_valid(x):
             break
     else:
         ctx.bad(root, "interface::load::valid", "load_from_ifdata does not test ifdata.ifdata_valid", where="a2lmacros/src/a2mlspec.rs")
